@@ -13,13 +13,27 @@ open PrologVerif
     two more arguments: a non-terminal of that name would be taken for the built-in -/
 def reserved : List String := [",", ";", "->", "=", "\\=", "==", "\\==", "call"]
 
-/-- the fragment: `[]`, ground terminals, non-terminals without arguments, `,`, `;` -/
+/-- goals allowed inside `{}` in the fragment -/
+def blockGoal (g : Term) : Bool :=
+  g == .atom "true" || g == .atom "fail" || g == .atom "false" || g == .atom "!"
+
+def Body.isIfthen : Body → Bool
+  | .ifthen _ _ => true
+  | _ => false
+
+/-- the fragment: `[]`, ground terminals, non-terminals without arguments, `,`, `;`/`|`,
+    if-then(-else), `\+`, `!`, `{true}`, `{fail}`, `{!}` -/
 def Body.simple : Body → Bool
   | .eps => true
   | .terminals ts => ts.all groundT
   | .nt f as => as.isEmpty && !reserved.contains f
   | .seq a b => a.simple && b.simple
-  | .alt a b => a.simple && b.simple
+  | .alt a b => a.simple && b.simple && !a.isIfthen
+  | .ite c t e => c.simple && t.simple && e.simple
+  | .ifthen c t => c.simple && t.simple
+  | .block g => blockGoal g
+  | .not b => b.simple
+  | .cut => true
   | _ => false
 
 /-- unification fuel that is enough for the terminal lists of a body -/
@@ -27,6 +41,9 @@ def Body.need : Body → Nat
   | .terminals ts => (Term.list ts Term.nilT).size
   | .seq a b => max a.need b.need
   | .alt a b => max a.need b.need
+  | .ite c t e => max c.need (max t.need e.need)
+  | .ifthen c t => max c.need t.need
+  | .not b => b.need
   | _ => 0
 
 def Rule.simple (r : Rule) : Bool :=
@@ -68,6 +85,49 @@ theorem solveGoal_disj (uf : Nat) (call : Term → St → Res SOut) (a b : Term)
   split <;> simp_all [notThen]
   rfl
 
+theorem solveGoal_ite (uf : Nat) (call : Term → St → Res SOut) (c t e : Term) (st : St) :
+    solveGoal uf call (Term.a2 ";" (Term.a2 "->" c t) e) st =
+      (match solveGoal uf call c st with
+       | .error err => .error err
+       | .ok oc =>
+         match oc.answers with
+         | st' :: _ => solveGoal uf call t st'
+         | [] => solveGoal uf call e st) := by
+  simp only [Term.a2, solveGoal]; rfl
+
+theorem solveGoal_ifthen (uf : Nat) (call : Term → St → Res SOut) (c t : Term) (st : St) :
+    solveGoal uf call (Term.a2 "->" c t) st =
+      (match solveGoal uf call c st with
+       | .error err => .error err
+       | .ok oc =>
+         match oc.answers with
+         | st' :: _ => solveGoal uf call t st'
+         | [] => .ok ⟨[], false⟩) := by
+  simp only [Term.a2, solveGoal]; rfl
+
+theorem solveGoal_not (uf : Nat) (call : Term → St → Res SOut) (g : Term) (st : St) :
+    solveGoal uf call (Term.a1 "\\+" g) st =
+      (match solveGoal uf call g st with
+       | .error err => .error err
+       | .ok o => .ok ⟨if o.answers.isEmpty then [st] else [], false⟩) := by
+  simp only [Term.a1, solveGoal]; rfl
+
+theorem solveGoal_cut (uf : Nat) (call : Term → St → Res SOut) (st : St) :
+    solveGoal uf call (.atom "!") st = .ok ⟨[st], true⟩ := by
+  simp only [solveGoal]
+
+theorem solveGoal_true (uf : Nat) (call : Term → St → Res SOut) (st : St) :
+    solveGoal uf call (.atom "true") st = .ok ⟨[st], false⟩ := by
+  simp only [solveGoal]
+
+theorem solveGoal_fail (uf : Nat) (call : Term → St → Res SOut) (st : St) :
+    solveGoal uf call (.atom "fail") st = .ok ⟨[], false⟩ := by
+  simp only [solveGoal]
+
+theorem solveGoal_false (uf : Nat) (call : Term → St → Res SOut) (st : St) :
+    solveGoal uf call (.atom "false") st = .ok ⟨[], false⟩ := by
+  simp only [solveGoal]
+
 theorem solveGoal_user (uf : Nat) (call : Term → St → Res SOut) (f : String) (x y : Term) (st : St)
     (hf : reserved.contains f = false) :
     solveGoal uf call (.app f (.cons x (.cons y .nil))) st = call (.app f (.cons x (.cons y .nil))) st := by
@@ -104,8 +164,7 @@ def AnsRel (st : St) (s lo hi : Nat) (dst : St) (st' : St) (a : St × Term) : Pr
 
 def Rel (st : St) (s lo hi : Nat) (dst : St) : Res SOut → Res Out → Prop
   | .error _, .error _ => True
-  | .ok A, .ok D =>
-    A.cut = false ∧ D.cut = false ∧ All2 (AnsRel st s lo hi dst) A.answers D.answers
+  | .ok A, .ok D => A.cut = D.cut ∧ All2 (AnsRel st s lo hi dst) A.answers D.answers
   | _, _ => False
 
 theorem Ext.mono {st st' : St} {s lo hi lo' hi' : Nat} (h : Ext st s lo hi st')
@@ -176,7 +235,7 @@ theorem Rel.mono {st dst : St} {s lo hi lo' hi' : Nat} {x : Res SOut} {y : Res O
     (h : Rel st s lo hi dst x y) (hsub : ∀ v, lo ≤ v → v < hi → lo' ≤ v ∧ v < hi') :
     Rel st s lo' hi' dst x y := by
   cases x <;> cases y <;> simp_all [Rel]
-  exact h.2.2.imp (fun _ _ h => h.mono hsub)
+  exact h.2.imp (fun _ _ h => h.mono hsub)
 
 /-- sequencing: run a second part in every answer of a first part -/
 theorem seq_sim {st dst : St} {s m lo hi lo1 hi1 lo2 hi2 : Nat}
@@ -205,22 +264,29 @@ theorem seq_sim {st dst : St} {s m lo hi lo1 hi1 lo2 hi2 : Nat}
       | error e' => simp [hx, hy, Rel] at h1
       | ok od =>
         simp only [hx, hy, Rel] at h1
-        obtain ⟨c1, c2, hall⟩ := h1
-        simp only [c1, c2, Bool.false_eq_true, if_false]
-        cases hx2 : sAndThen k As with
-        | error e =>
-          cases hy2 : andThen kd Ds with
-          | error e' => simp [Rel]
-          | ok od2 => simp [hx2, hy2, Rel] at ih
-        | ok o2 =>
-          cases hy2 : andThen kd Ds with
-          | error e' => simp [hx2, hy2, Rel] at ih
-          | ok od2 =>
-            simp only [hx2, hy2, Rel] at ih ⊢
-            refine ⟨ih.1, ih.2.1, All2.append ?_ ih.2.2⟩
-            refine hall.imp (fun st'' a h => ?_)
-            obtain ⟨f1, r', f2, f3, f4, f5⟩ := h
-            exact ⟨f1, r', f2, f3, f4, hext.comp f5 hm a1 a2 b1 b2⟩
+        obtain ⟨c1, hall⟩ := h1
+        have hall' : All2 (AnsRel st s lo hi sa) o.answers od.answers := by
+          refine hall.imp (fun st'' a h => ?_)
+          obtain ⟨f1, r', f2, f3, f4, f5⟩ := h
+          exact ⟨f1, r', f2, f3, f4, hext.comp f5 hm a1 a2 b1 b2⟩
+        by_cases hc : o.cut = true
+        · have hc' : od.cut = true := c1 ▸ hc
+          simp only [hc, hc', if_true, Rel]
+          exact ⟨trivial, hall'⟩
+        · have hc0 : o.cut = false := by simpa using hc
+          have hc' : od.cut = false := c1 ▸ hc0
+          simp only [hc0, hc', Bool.false_eq_true, if_false]
+          cases hx2 : sAndThen k As with
+          | error e =>
+            cases hy2 : andThen kd Ds with
+            | error e' => simp [Rel]
+            | ok od2 => simp [hx2, hy2, Rel] at ih
+          | ok o2 =>
+            cases hy2 : andThen kd Ds with
+            | error e' => simp [hx2, hy2, Rel] at ih
+            | ok od2 =>
+              simp only [hx2, hy2, Rel] at ih ⊢
+              exact ⟨ih.1, All2.append hall' ih.2⟩
 
 /-- the hidden variables of a later part are still unbound in an answer of an earlier part -/
 theorem Ext.hUnb {st st' : St} {m lo1 hi1 lo2 hi2 : Nat} (h : Ext st m lo1 hi1 st')
@@ -249,7 +315,8 @@ def CallSim (dyn : Dyn → St → Term → Res Out) (call : Term → St → Res 
     Rel st s 0 0 dst (call (.app f (.cons x (.cons (.var s) .nil))) st)
       (dyn (.nt f []) dst (Term.list l Term.nilT))
 
-theorem tr_notThen (b : Body) (hb : b.simple = true) (i o : Term) (n : Nat) : notThen (b.tr i o n).1 := by
+theorem tr_notThen (b : Body) (hb : b.simple = true) (hi : b.isIfthen = false) (i o : Term) (n : Nat) :
+    notThen (b.tr i o n).1 := by
   intro c t
   cases b with
   | nt f as =>
@@ -260,7 +327,49 @@ theorem tr_notThen (b : Body) (hb : b.simple = true) (i o : Term) (n : Nat) : no
     injection h with h1 _
     subst h1
     simp [reserved] at hf
+  | ifthen c t => simp [Body.isIfthen] at hi
   | _ => simp_all [Body.simple, Body.tr, Term.a2]
+
+theorem All2.isEmpty_eq {α β : Type} {R : α → β → Prop} {as : List α} {bs : List β} (h : All2 R as bs) :
+    as.isEmpty = bs.isEmpty := by
+  cases h <;> rfl
+
+/-- changing the base of a result relation: results obtained in an answer `st'` of a first part,
+    seen from the state `st` before the first part -/
+theorem Rel.comp {st st' dst : St} {s m lo hi lo1 hi1 lo2 hi2 : Nat} {x : Res SOut} {y : Res Out}
+    (h : Rel st' s lo2 hi2 dst x y) (hext : Ext st m lo1 hi1 st')
+    (hm : lo ≤ m ∧ m < hi) (a1 : lo ≤ lo1) (a2 : hi1 ≤ hi) (b1 : lo ≤ lo2) (b2 : hi2 ≤ hi) :
+    Rel st s lo hi dst x y := by
+  cases x <;> cases y <;> simp_all [Rel]
+  refine h.2.imp (fun st'' a h => ?_)
+  obtain ⟨f1, r', f2, f3, f4, f5⟩ := h
+  exact ⟨f1, r', f2, f3, f4, hext.comp f5 hm a1 a2 b1 b2⟩
+
+/-- the step `S0 = S` that ends the translation of every non-consuming construct -/
+theorem eq_step (uf : Nat) (huf : 1 ≤ uf) (call : Term → St → Res SOut) {st : St} {x : Term} {l : List Term}
+    {s lo hi : Nat} (P : Pre st x l s lo hi) (dst : St) :
+    solveGoal uf call (Term.a2 "=" x (.var s)) st =
+        .ok ⟨[{ st with σ := (s, Term.list l Term.nilT) :: st.σ }], false⟩ ∧
+      AnsRel st s lo hi dst { st with σ := (s, Term.list l Term.nilT) :: st.σ } (dst, Term.list l Term.nilT) := by
+  obtain ⟨k, hk⟩ : ∃ k, uf = k + 1 := ⟨uf - 1, by omega⟩
+  constructor
+  · rw [solveGoal_eq, hk, unify_nonvar_var k st.σ x _ s P.inp (isVar_list l) P.sUnb]
+  · exact ⟨rfl, l, rfl, P.gl, walk_bind st.σ s _ P.sUnb, Ext.refl_bind st s _ _ _ P.sLt P.wf⟩
+
+/-- `G, S0 = S` where `G` left the state alone (`keep`) or failed, and possibly cut (`c`) -/
+theorem conj_eq_tail (uf : Nat) (huf : 1 ≤ uf) (call : Term → St → Res SOut) {st : St} {x : Term}
+    {l : List Term} {s lo hi : Nat} (P : Pre st x l s lo hi) (dst : St) (c keep : Bool) :
+    Rel st s lo hi dst
+      (match sAndThen (fun st' => solveGoal uf call (Term.a2 "=" x (.var s)) st') (if keep then [st] else []) with
+       | .error e => .error e
+       | .ok ob => .ok ⟨ob.answers, c || ob.cut⟩)
+      (.ok ⟨if keep then [(dst, Term.list l Term.nilT)] else [], c⟩) := by
+  obtain ⟨h1, h2⟩ := eq_step uf huf call P dst
+  cases keep with
+  | false => simp [sAndThen, Rel]; exact .nil
+  | true =>
+    simp only [if_true, sAndThen, h1, Bool.false_eq_true, if_false, Rel, List.append_nil, Bool.or_false]
+    exact ⟨trivial, .cons h2 .nil⟩
 
 /-- **bodies**: given the correspondence for calls, the reference evaluation of a translated
     simple body corresponds to the denotation of the body -/
@@ -275,12 +384,9 @@ theorem body_sim (cfg : Cfg) (hcfg : cfg.engine = false) (huf : 1 ≤ cfg.uf)
   induction b with
   | eps =>
     intro _ _ top st dst x l s m P
-    obtain ⟨k, hk⟩ : ∃ k, cfg.uf = k + 1 := ⟨cfg.uf - 1, by omega⟩
-    simp only [Body.tr, solveGoal_eq, denBody, hk]
-    rw [unify_nonvar_var k st.σ x _ s P.inp (isVar_list l) P.sUnb]
-    refine ⟨rfl, rfl, .cons ⟨rfl, l, rfl, P.gl, ?_, ?_⟩ .nil⟩
-    · exact walk_bind st.σ s _ P.sUnb
-    · exact Ext.refl_bind st s _ _ _ P.sLt P.wf
+    obtain ⟨h1, h2⟩ := eq_step cfg.uf huf call P dst
+    simp only [Body.tr, h1, denBody, Rel]
+    exact ⟨trivial, .cons h2 .nil⟩
   | terminals ts =>
     intro hs hn top st dst x l s m P
     simp only [Body.simple, List.all_eq_true] at hs
@@ -289,9 +395,9 @@ theorem body_sim (cfg : Cfg) (hcfg : cfg.engine = false) (huf : 1 ≤ cfg.uf)
     rw [unify_terminals s ts cfg.uf st.σ x l P.inp P.gl hs P.sUnb hn,
         consume_ground cfg.uf dst ts l P.gl hs (fun t ht => Nat.le_trans (size_le_list t ts ht) hn)]
     cases hsp : stripPrefix ts l with
-    | none => exact ⟨rfl, rfl, .nil⟩
+    | none => exact ⟨rfl, .nil⟩
     | some l' =>
-      refine ⟨rfl, rfl, .cons ⟨rfl, l', rfl, stripPrefix_ground ts l l' P.gl hsp, ?_, ?_⟩ .nil⟩
+      refine ⟨rfl, .cons ⟨rfl, l', rfl, stripPrefix_ground ts l l' P.gl hsp, ?_, ?_⟩ .nil⟩
       · exact walk_bind st.σ s _ P.sUnb
       · exact Ext.refl_bind st s _ _ _ P.sLt P.wf
   | nt f as =>
@@ -324,7 +430,7 @@ theorem body_sim (cfg : Cfg) (hcfg : cfg.engine = false) (huf : 1 ≤ cfg.uf)
       | error e' => simp [hxa, hya, Rel] at ra
       | ok od =>
         simp only [hxa, hya, Rel] at ra
-        obtain ⟨c1, c2, hall⟩ := ra
+        obtain ⟨c1, hall⟩ := ra
         have hsm : s ≠ m := fun h => P.sOut (by omega)
         have key := seq_sim (s := s) (lo := m) (hi := m + (a.nhid + b.nhid + 1))
           (lo2 := m + 1 + a.nhid) (hi2 := m + 1 + a.nhid + b.nhid)
@@ -352,24 +458,23 @@ theorem body_sim (cfg : Cfg) (hcfg : cfg.engine = false) (huf : 1 ≤ cfg.uf)
           | error e' => simp [hxb, hyb, Rel] at key
           | ok odb =>
             simp only [hxb, hyb, Rel] at key ⊢
-            simp [c1, c2, key.1, key.2.1]
-            exact key.2.2
+            exact ⟨by rw [c1, key.1], key.2⟩
   | alt a b iha ihb =>
     intro hs hn top st dst x l s m P
-    simp only [Body.simple, Bool.and_eq_true] at hs
+    simp only [Body.simple, Bool.and_eq_true, Bool.not_eq_true'] at hs
     simp only [Body.need] at hn
     simp only [Body.nhid] at P ⊢
     simp only [Body.tr, tr_next, denBody, hcfg, Bool.false_and, Bool.false_eq_true, if_false]
-    rw [solveGoal_disj _ _ _ _ _ (tr_notThen a hs.1 _ _ _)]
+    rw [solveGoal_disj _ _ _ _ _ (tr_notThen a hs.1.1 hs.2 _ _ _)]
     have Pa : Pre st x l s m (m + a.nhid) :=
       ⟨P.inp, P.gl, P.sUnb, fun p hp h => P.hUnb p hp (by omega), P.sLt,
         by have := P.hiLe; omega, fun h => P.sOut (by omega), P.wf⟩
     have Pb : Pre st x l s (m + a.nhid) (m + a.nhid + b.nhid) :=
       ⟨P.inp, P.gl, P.sUnb, fun p hp h => P.hUnb p hp (by omega), P.sLt,
         by have := P.hiLe; omega, fun h => P.sOut (by omega), P.wf⟩
-    have ra := (iha hs.1 (by omega) false st dst x l s m Pa).mono
+    have ra := (iha hs.1.1 (by omega) false st dst x l s m Pa).mono
       (lo' := m) (hi' := m + (a.nhid + b.nhid)) (fun v h1 h2 => by omega)
-    have rb := (ihb hs.2 (by omega) true st dst x l s (m + a.nhid) Pb).mono
+    have rb := (ihb hs.1.2 (by omega) true st dst x l s (m + a.nhid) Pb).mono
       (lo' := m) (hi' := m + (a.nhid + b.nhid)) (fun v h1 h2 => by omega)
     cases hxa : solveGoal cfg.uf call (a.tr x (.var s) m).1 st with
     | error e =>
@@ -381,19 +486,173 @@ theorem body_sim (cfg : Cfg) (hcfg : cfg.engine = false) (huf : 1 ≤ cfg.uf)
       | error e' => simp [hxa, hya, Rel] at ra
       | ok od =>
         simp only [hxa, hya, Rel] at ra
-        obtain ⟨c1, c2, halla⟩ := ra
-        simp only [c1, c2, Bool.false_eq_true, if_false]
-        cases hxb : solveGoal cfg.uf call (b.tr x (.var s) (m + a.nhid)).1 st with
-        | error e =>
-          cases hyb : denBody cfg dyn true b dst (Term.list l Term.nilT) with
-          | error e' => simp [Rel]
-          | ok odb => simp [hxb, hyb, Rel] at rb
-        | ok ob =>
-          cases hyb : denBody cfg dyn true b dst (Term.list l Term.nilT) with
-          | error e' => simp [hxb, hyb, Rel] at rb
-          | ok odb =>
-            simp only [hxb, hyb, Rel] at rb ⊢
-            exact ⟨rb.1, rb.2.1, halla.append rb.2.2⟩
+        obtain ⟨c1, halla⟩ := ra
+        by_cases hc : oa.cut = true
+        · have hc' : od.cut = true := c1 ▸ hc
+          simp only [hc, hc', if_true, Rel]
+          exact ⟨trivial, halla⟩
+        · have hc0 : oa.cut = false := by simpa using hc
+          have hc' : od.cut = false := c1 ▸ hc0
+          simp only [hc0, hc', Bool.false_eq_true, if_false]
+          cases hxb : solveGoal cfg.uf call (b.tr x (.var s) (m + a.nhid)).1 st with
+          | error e =>
+            cases hyb : denBody cfg dyn true b dst (Term.list l Term.nilT) with
+            | error e' => simp [Rel]
+            | ok odb => simp [hxb, hyb, Rel] at rb
+          | ok ob =>
+            cases hyb : denBody cfg dyn true b dst (Term.list l Term.nilT) with
+            | error e' => simp [hxb, hyb, Rel] at rb
+            | ok odb =>
+              simp only [hxb, hyb, Rel] at rb ⊢
+              exact ⟨rb.1, halla.append rb.2⟩
+  | ite c t e ihc iht ihe =>
+    intro hs hn top st dst x l s m P
+    simp only [Body.simple, Bool.and_eq_true] at hs
+    simp only [Body.need] at hn
+    simp only [Body.nhid] at P ⊢
+    simp only [Body.tr, tr_next, solveGoal_ite, denBody, hcfg, Bool.false_eq_true, if_false]
+    have Pc : Pre st x l m (m + 1) (m + 1 + c.nhid) :=
+      ⟨P.inp, P.gl, fun p hp h => P.hUnb p hp (by omega), fun p hp h => P.hUnb p hp (by omega),
+        by have := P.hiLe; omega, by have := P.hiLe; omega, fun h => by omega, P.wf⟩
+    have rc := ihc hs.1.1 (by omega) true st dst x l m (m + 1) Pc
+    cases hxc : solveGoal cfg.uf call (c.tr x (.var m) (m + 1)).1 st with
+    | error err =>
+      cases hyc : denBody cfg dyn true c dst (Term.list l Term.nilT) with
+      | error e' => simp [Rel]
+      | ok od => simp [hxc, hyc, Rel] at rc
+    | ok oc =>
+      cases hyc : denBody cfg dyn true c dst (Term.list l Term.nilT) with
+      | error e' => simp [hxc, hyc, Rel] at rc
+      | ok od =>
+        simp only [hxc, hyc, Rel] at rc
+        obtain ⟨_, hall⟩ := rc
+        cases hA : oc.answers with
+        | nil =>
+          rw [hA] at hall
+          cases hD : od.answers with
+          | cons d ds => rw [hD] at hall; cases hall
+          | nil =>
+            simp only [hA, hD]
+            have Pe : Pre st x l s (m + 1 + c.nhid + t.nhid) (m + 1 + c.nhid + t.nhid + e.nhid) :=
+              ⟨P.inp, P.gl, P.sUnb, fun p hp h => P.hUnb p hp (by omega), P.sLt,
+                by have := P.hiLe; omega, fun h => P.sOut (by omega), P.wf⟩
+            exact (ihe hs.2 (by omega) true st dst x l s (m + 1 + c.nhid + t.nhid) Pe).mono
+              (fun v h1 h2 => by omega)
+        | cons st' rest =>
+          rw [hA] at hall
+          cases hD : od.answers with
+          | nil => rw [hD] at hall; cases hall
+          | cons d ds =>
+            rw [hD] at hall
+            cases hall with
+            | cons hr _ =>
+              obtain ⟨sa, ra⟩ := d
+              obtain ⟨e1, r, e2, gr, hw, hext⟩ := hr
+              simp only at e1 e2
+              subst e1 e2
+              simp only [hA, hD]
+              have hsm : s ≠ m := fun h => P.sOut (by omega)
+              have Pt : Pre st' (.var m) r s (m + 1 + c.nhid) (m + 1 + c.nhid + t.nhid) :=
+                ⟨hw, gr,
+                 hext.unbound s P.sUnb hsm (fun h => P.sOut (by omega)) P.sLt,
+                 hext.hUnb (fun p hp h => P.hUnb p hp (by omega)) (by omega) (Nat.le_refl _)
+                   (by have := P.hiLe; omega),
+                 by have := hext.1; have := P.sLt; omega,
+                 by have := hext.1; have := P.hiLe; omega,
+                 fun h => P.sOut (by omega),
+                 hext.2.1⟩
+              exact (iht hs.1.2 (by omega) true st' sa (.var m) r s (m + 1 + c.nhid) Pt).comp
+                (lo := m) (hi := m + (c.nhid + t.nhid + e.nhid + 1)) hext
+                (by omega) (by omega) (by omega) (by omega) (by omega)
+  | ifthen c t ihc iht =>
+    intro hs hn top st dst x l s m P
+    simp only [Body.simple, Bool.and_eq_true] at hs
+    simp only [Body.need] at hn
+    simp only [Body.nhid] at P ⊢
+    simp only [Body.tr, tr_next, solveGoal_ifthen, denBody, hcfg, Bool.false_eq_true, if_false]
+    have Pc : Pre st x l m (m + 1) (m + 1 + c.nhid) :=
+      ⟨P.inp, P.gl, fun p hp h => P.hUnb p hp (by omega), fun p hp h => P.hUnb p hp (by omega),
+        by have := P.hiLe; omega, by have := P.hiLe; omega, fun h => by omega, P.wf⟩
+    have rc := ihc hs.1 (by omega) true st dst x l m (m + 1) Pc
+    cases hxc : solveGoal cfg.uf call (c.tr x (.var m) (m + 1)).1 st with
+    | error err =>
+      cases hyc : denBody cfg dyn true c dst (Term.list l Term.nilT) with
+      | error e' => simp [Rel]
+      | ok od => simp [hxc, hyc, Rel] at rc
+    | ok oc =>
+      cases hyc : denBody cfg dyn true c dst (Term.list l Term.nilT) with
+      | error e' => simp [hxc, hyc, Rel] at rc
+      | ok od =>
+        simp only [hxc, hyc, Rel] at rc
+        obtain ⟨_, hall⟩ := rc
+        cases hA : oc.answers with
+        | nil =>
+          rw [hA] at hall
+          cases hD : od.answers with
+          | cons d ds => rw [hD] at hall; cases hall
+          | nil => simp only [hA, hD, Rel]; exact ⟨trivial, .nil⟩
+        | cons st' rest =>
+          rw [hA] at hall
+          cases hD : od.answers with
+          | nil => rw [hD] at hall; cases hall
+          | cons d ds =>
+            rw [hD] at hall
+            cases hall with
+            | cons hr _ =>
+              obtain ⟨sa, ra⟩ := d
+              obtain ⟨e1, r, e2, gr, hw, hext⟩ := hr
+              simp only at e1 e2
+              subst e1 e2
+              simp only [hA, hD]
+              have hsm : s ≠ m := fun h => P.sOut (by omega)
+              have Pt : Pre st' (.var m) r s (m + 1 + c.nhid) (m + 1 + c.nhid + t.nhid) :=
+                ⟨hw, gr,
+                 hext.unbound s P.sUnb hsm (fun h => P.sOut (by omega)) P.sLt,
+                 hext.hUnb (fun p hp h => P.hUnb p hp (by omega)) (by omega) (Nat.le_refl _)
+                   (by have := P.hiLe; omega),
+                 by have := hext.1; have := P.sLt; omega,
+                 by have := hext.1; have := P.hiLe; omega,
+                 fun h => P.sOut (by omega),
+                 hext.2.1⟩
+              exact (iht hs.2 (by omega) true st' sa (.var m) r s (m + 1 + c.nhid) Pt).comp
+                (lo := m) (hi := m + (c.nhid + t.nhid + 1)) hext
+                (by omega) (by omega) (by omega) (by omega) (by omega)
+  | block g =>
+    intro hs _ top st dst x l s m P
+    simp only [Body.simple, blockGoal, Bool.or_eq_true, beq_iff_eq] at hs
+    simp only [Body.tr, solveGoal_conj, denBody]
+    rcases hs with ((rfl | rfl) | rfl) | rfl
+    · simpa [solveGoal_true, evalBlock] using conj_eq_tail cfg.uf huf call P dst false true
+    · simpa [solveGoal_fail, evalBlock] using conj_eq_tail cfg.uf huf call P dst false false
+    · simpa [solveGoal_false, evalBlock] using conj_eq_tail cfg.uf huf call P dst false false
+    · simpa [solveGoal_cut, evalBlock] using conj_eq_tail cfg.uf huf call P dst true true
+  | not b ih =>
+    intro hs hn top st dst x l s m P
+    simp only [Body.simple] at hs
+    simp only [Body.need] at hn
+    simp only [Body.nhid] at P ⊢
+    simp only [Body.tr, solveGoal_conj, solveGoal_not, denBody]
+    have Pb : Pre st x l m (m + 1) (m + 1 + b.nhid) :=
+      ⟨P.inp, P.gl, fun p hp h => P.hUnb p hp (by omega), fun p hp h => P.hUnb p hp (by omega),
+        by have := P.hiLe; omega, by have := P.hiLe; omega, fun h => by omega, P.wf⟩
+    have rb := ih hs hn true st dst x l m (m + 1) Pb
+    cases hxb : solveGoal cfg.uf call (b.tr x (.var m) (m + 1)).1 st with
+    | error err =>
+      cases hyb : denBody cfg dyn true b dst (Term.list l Term.nilT) with
+      | error e' => simp [Rel]
+      | ok od => simp [hxb, hyb, Rel] at rb
+    | ok ob =>
+      cases hyb : denBody cfg dyn true b dst (Term.list l Term.nilT) with
+      | error e' => simp [hxb, hyb, Rel] at rb
+      | ok od =>
+        simp only [hxb, hyb, Rel] at rb
+        have hemp := rb.2.isEmpty_eq
+        simp only [← hemp]
+        simpa using conj_eq_tail cfg.uf huf call P dst false ob.answers.isEmpty
+  | cut =>
+    intro _ _ top st dst x l s m P
+    simp only [Body.tr, solveGoal_conj, solveGoal_cut, denBody]
+    simpa using conj_eq_tail cfg.uf huf call P dst true true
   | _ => intro hs; simp [Body.simple] at hs
 
 end PrologVerif.Grammar
